@@ -506,7 +506,101 @@ func mcRunCodecs(e *mcEnv) {
 			}
 		}
 	}
+	mcRunDelims(e)
 	mcRunChunks(e)
+}
+
+// terminator / delimiter byte patterns of the three protocols
+var mcDelims = [][]byte{{0x0D, 0x0A}, {0x0D}, {0x0A}, {0}, {'='}, {'+', 'r'}, {'.'}, {0x0D, 0x0A, 0x0D, 0x0A}, {0xFF}, {0x06}}
+
+// every variable-length part with each delimiter pattern at every position, followed by k = 0..3 more
+// bytes (inserted and overwriting): parse-then-serialise, reject-don't-truncate and serialise-then-parse
+// oracles plus correspondence cases
+func mcRunDelims(e *mcEnv) {
+	r := e.rng
+	var tok, wgt, wb *mcCodec
+	cs := mcCodecs()
+	for i := range cs {
+		switch cs[i].tag {
+		case "rdp_token":
+			tok = &cs[i]
+		case "wg_transport":
+			wgt = &cs[i]
+		case "winbox_auth":
+			wb = &cs[i]
+		}
+	}
+	variants := func(base []byte, visit func(v []byte)) {
+		for p := 0; p <= len(base); p++ {
+			for _, d := range mcDelims {
+				if !vThorough() && len(base) > 30 && p%3 != 0 && len(d) != 2 {
+					continue
+				}
+				for k := 0; k <= 3; k++ {
+					// inserted at p, k bytes after it, the rest of the base dropped / kept
+					visit(mcCat(base[:p], d, r.Bytes(k)))
+					if k == 0 {
+						visit(mcCat(base[:p], d, base[p:]))
+					}
+				}
+				if p+len(d) <= len(base) { // overwriting
+					v := append([]byte(nil), base...)
+					copy(v[p:], d)
+					visit(v)
+				}
+			}
+		}
+	}
+	// RDPToken.Optional (offset 11 onwards)
+	for _, opt := range [][]byte{[]byte("Cookie: msts=1.2.0000\r\n"), []byte("Cookie: msts=167772170.15629.0000\r\n"), []byte("abcdefgh"), {}} {
+		variants(opt, func(v []byte) {
+			l := 11 + len(v)
+			hdr := []byte{3, 0, byte(l >> 8), byte(l), byte(l - 5), 0xE0, 0, 0, 0, 0, 0}
+			mcCodecFrom(e, tok, mcCat(hdr, v), true)
+			mcCodecTo(e, tok, []uint64{3, 0, uint64(l), uint64(byte(l - 5)), 0xE0, 0, 0, 0}, [][]byte{v})
+		})
+	}
+	// MessageTransport.Content (offset 16 onwards)
+	for _, content := range [][]byte{r.Bytes(16), {}} {
+		variants(content, func(v []byte) {
+			mcCodecFrom(e, wgt, mcCat([]byte{4, 0, 0, 0, 1, 2, 3, 4, 9, 0, 0, 0, 0, 0, 0, 0}, v), true)
+			mcCodecTo(e, wgt, []uint64{4, 0x04030201, 9}, [][]byte{v})
+		})
+	}
+	// Winbox: the payload (user name, NUL, key, parity) of a one-chunk and of a two-chunk message with each
+	// delimiter byte written at every position; the user name part also through ToBytes
+	for _, ul := range []int{4, 230} {
+		u := mcWbUser(r, ul)
+		key := r.Bytes(32)
+		for i := range key {
+			if key[i] == 0 {
+				key[i] = 1
+			}
+		}
+		msg := mcWbEncode(u, key, 1)
+		for p := 2; p < len(msg); p++ {
+			if p == 257 || p == 258 {
+				continue // chunk header bytes: covered by the chunk corruptions
+			}
+			for _, d := range []byte{0, '+', 'r', 0x0D, 0x0A, '=', 0xFF, 0x06} {
+				if ul > 100 && !vThorough() && p%5 != 0 && d != 0 {
+					continue
+				}
+				v := append([]byte(nil), msg...)
+				v[p] = d
+				mcCodecFrom(e, wb, v, true)
+			}
+		}
+		for p := 0; p <= len(u); p++ {
+			if ul > 100 && !vThorough() && p%7 != 0 {
+				continue
+			}
+			for _, d := range [][]byte{{0}, {'+', 'r'}, {'+'}, {0x0D, 0x0A}, {'='}} {
+				mcCodecFrom(e, wb, mcWbEncode(mcCat(u[:p], d, u[p:]), key, 1), true)
+				mcCodecFrom(e, wb, mcWbEncode(mcCat(u[:p], d), key, 1), true)
+			}
+		}
+	}
 }
 
 // a Winbox message whose total length is l when that is possible (l-2-34 or l-4-34 name bytes), else the closest
